@@ -300,6 +300,7 @@ func rulesC09(c *Ctx) {
 	// "no reference" is decided by the value, as the index maintenance does
 	ruleEmptyRef(c, "C09.EMPTYREF")
 	ruleRefStore(c, "C09.REFSTORE")
+	ruleSymbolPathKey(c, "C09.SYMPATH")
 	// every entity scan of the checks iterates the VALID ids of the store (for an extended child store:
 	// only entities that have child data), otherwise parent-only entities are reported as broken
 	ruleValidIds(c, "C09.VALIDIDS")
